@@ -2,6 +2,7 @@ package main
 
 import (
 	"fmt"
+	"io"
 	"math"
 	"sync"
 	"time"
@@ -433,6 +434,11 @@ func c20Isolation(c *mon.Ctx, r *mon.Rand) {
 	if len(fam) < 2 {
 		return
 	}
+	if r.Chance(1, 4) {
+		// specifications without bounds (empty, not nil), one of each kind: a
+		// histogram of that kind with the single all-covering bucket
+		fam = append(fam, c20Set{V: []float64{}, Why: "empty value specification"}, c20Set{IsDur: true, D: []time.Duration{}, Why: "empty duration specification"})
+	}
 	c.Eval(1)
 	cached := r.Bool()
 	concurrent := r.Chance(1, 3)
@@ -565,6 +571,61 @@ func c20Isolation(c *mon.Ctx, r *mon.Rand) {
 		}
 	}
 	tally.VerifReportPass(root)
+	// a third of the sequential cases go on: one member that lives in a subscope
+	// of its own is closed and dropped by a pass, a further histogram with a
+	// permutation of a surviving member's set is created, and every survivor
+	// records its samples once more - each still with its own bounds
+	if !concurrent && r.Chance(1, 3) {
+		victim := -1
+		for _, i := range r.Perm(len(fam)) {
+			if scopes[i] != root && !skipped[i] && !custom[i] {
+				victim = i
+				break
+			}
+		}
+		if victim >= 0 {
+			if c.Guard("panic-create", func() interface{} { return ctx }, func() {
+				scopes[victim].(io.Closer).Close()
+				tally.VerifReportPass(root) // reports the closed scope once more and drops it
+				j := (victim + 1) % len(fam)
+				late := histExpect{Name: "late.hl", IsDur: fam[j].IsDur, Mult: 1}
+				ls := root.SubScope("late")
+				if fam[j].IsDur {
+					for k := len(fam[j].D) - 1; k >= 0; k-- {
+						late.D = append(late.D, fam[j].D[k])
+					}
+					late.SamplesD = r.SamplesForDurations(late.D, 2)
+					h := ls.Histogram("hl", tally.DurationBuckets(append([]time.Duration(nil), late.D...)))
+					for _, x := range late.SamplesD {
+						h.RecordDuration(x)
+					}
+				} else {
+					for k := len(fam[j].V) - 1; k >= 0; k-- {
+						late.V = append(late.V, fam[j].V[k])
+					}
+					late.SamplesV = r.SamplesForValues(late.V, 2)
+					h := ls.Histogram("hl", tally.ValueBuckets(append([]float64(nil), late.V...)))
+					for _, x := range late.SamplesV {
+						h.RecordValue(x)
+					}
+				}
+				for _, i := range order {
+					if i == victim || skipped[i] || custom[i] {
+						continue
+					}
+					create(i) // the name exists: the same histogram, its samples once more
+					hes[i].Mult = 2
+				}
+				hes = append(hes, late)
+				skipped = append(skipped, false)
+				tally.VerifReportPass(root)
+			}) {
+				return
+			}
+			ctx["a_member_closed_and_dropped_then_a_late_permutation"] = victim
+			c.Class("isolation-with-a-dropped-member", 1)
+		}
+	}
 	var log []mon.Event
 	if cached {
 		log, _, _ = crec.Snapshot()
